@@ -133,6 +133,23 @@ def rule_R1(ctx, repo, flow):
     calls_names = any(astq.call_name(c) == "_check_names" for c in astq.calls(cf))
     ctx.check(n_rej >= 3 and calls_names, "R1", "_check_forecasters:rejects", "three rejecting sites (shape, all dropped, member type) and name validation",
               "_check_forecasters has %d rejecting sites, calls _check_names: %s" % (n_rej, calls_names), ctx.loc(m, cf))
+    for fn_, label in ((cf, "_check_forecasters"),):
+        dedup = None
+        for c_ in astq.calls(fn_):
+            if astq.call_name(c_) == "_check_names" and c_.args:
+                e_ = astq.inline_locals(fn_, c_.args[0])
+                src_ = ast.dump(e_)
+                # names is usually produced by tuple-unpacking zip(*X): find that assignment
+                for node_ in astq.walk_no_nested(fn_):
+                    if isinstance(node_, ast.Assign) and isinstance(node_.targets[0], (ast.Tuple, ast.List)) and isinstance(node_.value, ast.Call) \
+                            and astq.call_name(node_.value) == "zip" and isinstance(c_.args[0], ast.Name) \
+                            and any(isinstance(t_, ast.Name) and t_.id == c_.args[0].id for t_ in node_.targets[0].elts):
+                        src_ = ast.dump(astq.inline_locals(fn_, node_.value))
+                dedup = any(k_ in src_ for k_ in ("id='dict'", "id='set'", "id='frozenset'", "id='OrderedDict'", "attr='fromkeys'"))
+        ctx.check(None if dedup is None else (not dedup), "R1", label + ":names-not-deduplicated",
+                  "the names handed to _check_names are all component names (duplicates preserved)",
+                  "%s builds the names through a dict/set, so duplicate component names collapse before _check_names can reject them" % label,
+                  ctx.loc(m, fn_))
     cs = repo.func("sktime/forecasting/compose/_pipeline.py", "TransformedTargetForecaster._check_steps")
     m = repo.module("sktime/forecasting/compose/_pipeline.py")
     tc = repo.cls("sktime/forecasting/compose/_pipeline.py:TransformedTargetForecaster")
@@ -470,15 +487,28 @@ def rule_R2(ctx, repo):
     fn = repo.func(VALID, "is_int")
     rets = astq.returns(fn)
     f = PathConditions(fn, Atomizer({"x": "x"})).returned_truth()
-    A = atom("isinstance(x, [int, np.integer])")
-    B = atom("isinstance(x, bool)")
+    from itertools import product as _prod
+    from ..boolx import evaluate as _evl
     ok = None
+    detail = "is_int is %s" % (show(f) if f else "?")
     if f is not None:
-        ok, wit = equivalent(f, conj(A, neg(B)))
-        if ok is False and not (atoms_subset(f, {"isinstance(x, [int, np.integer])", "isinstance(x, bool)"})):
-            # accept other integer-type tuples that still contain int and np.integer
-            ok = _is_int_shape(rets[0].value) if len(rets) == 1 else None
-    ctx.check(ok, "R2", "is_int", "integer types accepted, bool excluded", "is_int is %s" % (show(f) if f else "?"), ctx.loc(m, fn))
+        ats_ = sorted(atoms_of_formula(f))
+        ints = [a for a in ats_ if a.startswith("isinstance(x, ") and "int" in a and "bool" not in a and "float" not in a]
+        bools = [a for a in ats_ if a == "isinstance(x, bool)"]
+        if len(ints) == 1 and not bools and len(ats_) <= 8:
+            ok, detail = False, "is_int does not exclude bool (bool is a subclass of int): %s" % show(f)
+        if len(ints) == 1 and len(bools) == 1 and len(ats_) <= 8:
+            others = [a for a in ats_ if a not in ints + bools]
+            ok = True
+            for vals in _prod((False, True), repeat=len(others)):
+                env = dict(zip(others, vals))
+                if ok and _evl(f, dict(env, **{ints[0]: False, bools[0]: False})):
+                    ok, detail = False, "is_int accepts a value that is not of integer type (when %s)" % {k: v for k, v in env.items() if v}
+                if ok and _evl(f, dict(env, **{ints[0]: True, bools[0]: True})):
+                    ok, detail = False, "is_int accepts bool"
+                if ok and not _evl(f, dict(env, **{ints[0]: True, bools[0]: False})):
+                    ok, detail = False, "is_int rejects a proper integer (when %s)" % env
+    ctx.check(ok, "R2", "is_int", "exactly the integer types are accepted, bool excluded", detail, ctx.loc(m, fn))
 
     for relpath, fname, pname in ((VALID, "check_window_length", "window_length"), (VFC, "check_step_length", "step_length")):
         mod = repo.module(relpath)
@@ -555,7 +585,18 @@ def rule_R2(ctx, repo):
             ok = any(_is_not_none(t, "X") == br for t, br in conds if _is_not_none(t, "X") is not None)
             c = [c for c in n.calls() if astq.call_name(c) == "check_equal_time_index"][0]
             ok = ok and {dotted(a) for a in c.args} == {"y", "X"}
-    ctx.check(ok, "R2", "check_y_X:equal-index", "check_equal_time_index(y, X) under `X is not None`",
+    pcx = PathConditions(fn, Atomizer(), mark=lambda st: any(astq.call_name(c_) == "check_equal_time_index" for c_ in astq.calls(st))
+                         and not isinstance(st, (ast.If, ast.For, ast.While)))
+    condx = FALSE
+    for st_, c_ in pcx.marked:
+        condx = disj(condx, c_)
+    x_atoms = [a for a in atoms_of_formula(condx) if a.startswith("isnone(X")]
+    exact = False
+    if len(x_atoms) == 1:
+        r_, _w = equivalent(condx, neg(atom(x_atoms[0])))
+        exact = bool(r_)
+    ok = ok and exact
+    ctx.check(ok, "R2", "check_y_X:equal-index", "check_equal_time_index(y, X) exactly when X is given",
               "check_y_X does not compare the indices of y and X when X is given", ctx.loc(mod, fn))
     cy = [c for c in astq.calls(fn) if astq.call_name(c) == "check_y"]
     ctx.check(bool(cy), "R2", "check_y_X:check_y", "y validated", "check_y_X does not call check_y", ctx.loc(mod, fn))
@@ -636,6 +677,7 @@ def rule_R2(ctx, repo):
     dup_atoms = [a for a in ats if a.startswith("eq(") and "len(values" in a and "nunique()" in a]
     type_atoms = [a for a in ats if a.startswith("in(type(values") or a.startswith("isinstance(values")]
     ok_dup = ok_type = False
+    dup_results = []
     if len(dup_atoms) == 1 and type_atoms:
         # a supported container holding duplicates must be rejected; without duplicates it must be accepted
         for valid in type_atoms:
@@ -647,7 +689,8 @@ def rule_R2(ctx, repo):
             r1 = _ev(pcv.raises, env)
             env[dup_atoms[0]] = True
             r2 = _ev(pcv.raises, env)
-            ok_dup = (r1 is True and r2 is False) if not ok_dup else (ok_dup and r1 is True and r2 is False)
+            dup_results.append(r1 is True and r2 is False)
+        ok_dup = bool(dup_results) and all(dup_results)
         # no supported type: TypeError
         env = {a: False for a in ats}
         env[dup_atoms[0]] = True
